@@ -4,7 +4,7 @@ use crate::case::*;
 use crate::gen::{self, Pool, PoolSizes};
 use crate::minimise::minimise;
 use crate::oracle::{self, OracleStats};
-use crate::proc::{self, Exit, SharedFlag};
+use crate::proc::{self, Exit};
 use crate::sim::{self, RunSpec, NSITES, SITE_NAMES};
 use crate::types::*;
 use crate::workload::{self, PoolIndex, RunKind, FAULT_NAMES};
@@ -112,6 +112,8 @@ pub struct BatchStats {
     pub block_ticks: u64,
     pub shared_hits: u64,
     pub futex_waits: u64,
+    pub us_spawn: u64,
+    pub us_total: u64,
     pub sched_nontrivial: BTreeSet<u64>,
     pub runs_with_preempt: u64,
     pub by_policy: BTreeMap<String, u64>,
@@ -146,26 +148,23 @@ pub fn run_batch(
     force_no_intra: bool,
 ) -> BatchStats {
     let t0 = Instant::now();
-    let stop = SharedFlag::new();
-    let degrade = SharedFlag::new();
-    if force_no_intra {
-        degrade.set(1);
-    }
+    let stop = std::cell::Cell::new(false);
+    let degrade = std::cell::Cell::new(force_no_intra);
     let mut bs = BatchStats { name: name.to_string(), planned: n, ..Default::default() };
     let mut consecutive_lost = 0u32;
-    proc::par_map(
+    proc::zmap(
         n,
         workers,
         timeout,
         deadline,
-        &stop,
-        |i| {
-            let allow_intra = degrade.get() == 0;
+        &mut || !stop.get(),
+        &mut |i| {
+            let allow_intra = !degrade.get();
             let mut spec = workload::make_spec(pool, ix, seed_for(base, stream, i), kind, allow_intra);
             spec.want_trace = i < trace_first;
-            sim::run_child(pool, &spec)
+            Some(crate::wire::encode_run(pool, &spec))
         },
-        |i, bytes, exit| {
+        &mut |i, bytes, exit| {
             let r = classify(&bytes, exit);
             match r.status.as_str() {
                 "ok" | "violation" => {
@@ -183,6 +182,8 @@ pub fn run_batch(
                     bs.block_ticks += g("bt");
                     bs.shared_hits += g("shh");
                     bs.futex_waits += g("fw");
+                    bs.us_spawn += g("us_spawn");
+                    bs.us_total += g("us_total");
                     bs.max_inflight = bs.max_inflight.max(g("mi"));
                     if let Some(a) = v.get("f").and_then(|x| x.as_array()) {
                         for (k, x) in a.iter().enumerate().take(10) {
@@ -228,7 +229,7 @@ pub fn run_batch(
                     if r.status == "violation" {
                         bs.violations.push((i, r.rec.clone()));
                         if bs.violations.len() as u32 >= max_violations {
-                            stop.set(1);
+                            stop.set(true);
                         }
                     } else {
                         bs.ok += 1;
@@ -247,8 +248,8 @@ pub fn run_batch(
                     // many runs stall on something the simulator cannot see (a lock held across tick sites):
                     // stop pre-empting inside calls for the rest of this invocation, keep judging at call granularity
                     let seen = bs.lost_control + bs.completed + bs.inconclusive;
-                    if degrade.get() == 0 && (consecutive_lost >= 20 || (bs.lost_control >= 32 && bs.lost_control * 50 >= seen)) {
-                        degrade.set(1);
+                    if !degrade.get() && (consecutive_lost >= 20 || (bs.lost_control >= 32 && bs.lost_control * 50 >= seen)) {
+                        degrade.set(true);
                         bs.degraded = true;
                     }
                 }
@@ -343,6 +344,7 @@ fn batch_json(b: &BatchStats) -> Value {
         "by_policy": b.by_policy, "by_threads": b.by_threads.iter().map(|(k, v)| (k.to_string(), *v)).collect::<BTreeMap<String, u64>>(),
         "site_pair_cells_filled": filled, "site_pair_cells": cells,
         "wall_s": (b.wall_s * 100.0).round() / 100.0,
+        "mean_run_child_us": if b.ok > 0 { b.us_total / b.ok } else { 0 }, "mean_thread_spawn_us": if b.ok > 0 { b.us_spawn / b.ok } else { 0 },
         "runs_per_s": if b.wall_s > 0.0 { (b.completed as f64 / b.wall_s).round() } else { 0.0 },
     })
 }
@@ -811,8 +813,62 @@ pub fn check(o: &CheckOpts) -> i32 {
         4,
         false,
     );
+    // ---- stall-and-wrap: a caller parked mid-call while another makes 2^8 / 2^16 (+ d) distinct calls of the same
+    //      evaluator, over a filler pool of trivially distinct formulas ("<i>+@")
+    println!("search batches done at {:.1}s", t0.elapsed().as_secs_f64());
+    let stall_evs: Vec<Ev> = if !hints.evs.is_empty() { hints.evs.iter().copied().take(2).collect() } else { vec![ALL_EV[(o.seed % 5) as usize]] };
+    let mut filler_pools: Vec<(Pool, PoolIndex)> = Vec::new();
+    for ev in &stall_evs {
+        let mut cand = Pool::default();
+        let ph = match ev {
+            Ev::F64 => Ph::F64(0.25f64.to_bits()),
+            Ev::I64 => Ph::I64(3),
+            Ev::Dec => Ph::Dec(rust_decimal::Decimal::new(25, 1).serialize()),
+            Ev::Cx => Ph::Cx(1.5f64.to_bits(), (-2.5f64).to_bits()),
+            Ev::Num => Ph::NumI(3),
+        };
+        for i in 0..(65536 + 200) {
+            let id = cand.by_expr.len() as u32;
+            cand.by_expr.push(vec![i as u32]);
+            let text = format!("{}+@", i);
+            cand.by_text.entry(text.clone()).or_default().push(id);
+            cand.entries.push(gen::Entry { call: Call { ev: *ev, expr: text, ph }, expr_id: id, origin: "filler", oracle: Outcome::Panic(String::new()), ticks: 0, trace: 0, sensitive: false, text_id: 0 });
+        }
+        println!("  filler candidates built at {:.1}s", t0.elapsed().as_secs_f64());
+        let (mut fp, fst) = oracle::oracle_pass(cand, w, 0);
+        println!("  filler oracle done at {:.1}s", t0.elapsed().as_secs_f64());
+        if fst.kept == fst.candidates {
+            let fix = workload::index_pool(&mut fp);
+            println!("  filler index done at {:.1}s", t0.elapsed().as_secs_f64());
+            oc.seed_from_pool(&fp);
+            filler_pools.push((fp, fix));
+        }
+    }
+    println!("stall-and-wrap filler pools: {} evaluators ready at {:.1}s", filler_pools.len(), t0.elapsed().as_secs_f64());
+    let mut stall_batches: Vec<(BatchStats, usize, u64, RunKind)> = Vec::new();
+    for (pi, (fp, fix)) in filler_pools.iter().enumerate() {
+        let small_n = if t.name == "quick" { 32 } else { 256 };
+        let big_n = if t.name == "quick" { 6 } else { 48 };
+        let b1 = run_batch("stall_wrap_2^8", fp, fix, o.seed, 40 + pi as u64, RunKind::StallWrap { base: 256 }, small_n, w, Duration::from_secs(20), None, false, 0, 2, false);
+        stall_batches.push((b1, pi, 40 + pi as u64, RunKind::StallWrap { base: 256 }));
+        let b2 = run_batch("stall_wrap_2^16", fp, fix, o.seed, 50 + pi as u64, RunKind::StallWrap { base: 65536 }, big_n, w, Duration::from_secs(90), Some(Instant::now() + Duration::from_secs(if t.name == "quick" { 25 } else { 240 })), false, 0, 2, false);
+        stall_batches.push((b2, pi, 50 + pi as u64, RunKind::StallWrap { base: 65536 }));
+    }
+    let mut all_batches: Vec<(BatchStats, u64, RunKind, Option<usize>)> = vec![
+        (d16, 11u64, RunKind::Short, None),
+        (short, 1, RunKind::Short, None),
+        (wide, 2, RunKind::Wide, None),
+        (long, 3, RunKind::Long { calls: long_calls }, None),
+    ];
+    for (b, pi, stream, kind) in stall_batches {
+        all_batches.push((b, stream, kind, Some(pi)));
+    }
     // the determinism batches are ordinary verdict-bearing runs too
-    for (b, stream, kind) in [(d16, 11u64, RunKind::Short), (short, 1, RunKind::Short), (wide, 2, RunKind::Wide), (long, 3, RunKind::Long { calls: long_calls })] {
+    for (b, stream, kind, fpi) in all_batches {
+        let (pool, ix): (&Pool, &PoolIndex) = match fpi {
+            Some(i) => (&filler_pools[i].0, &filler_pools[i].1),
+            None => (&pool, &ix),
+        };
         // ---- violations of this batch: rebuild, minimise, write replay files
         let mut by_class: BTreeMap<(String, String), Vec<(usize, Case, RunResult)>> = BTreeMap::new();
         for (i, rec) in b.violations.iter() {
@@ -1283,8 +1339,9 @@ pub fn debug_seed(o: &CheckOpts, stream: u64, idx: usize, reps: usize, pad: usiz
     for _ in 0..reps {
         let mut spec = workload::make_spec(&pool, &ix, seed_for(o.seed, stream, idx), RunKind::Short, true);
         spec.want_trace = true;
-        let (bytes, exit) = proc::run_item(|| sim::run_child(&pool, &spec), Duration::from_secs(5));
-        let r = classify(&bytes, exit);
+        let mut got: Option<RunResult> = None;
+        proc::zmap(1, 1, Duration::from_secs(5), None, &mut || true, &mut |_| Some(crate::wire::encode_run(&pool, &spec)), &mut |_, bytes, exit| got = Some(classify(&bytes, exit)));
+        let r = got.unwrap_or(RunResult { status: "crashed".into(), rec: Value::Null });
         println!("{} {} h={} sw={} shh={} fw={} ticks={} switches={}", spec.policy.name(), r.status, r.hash(), r.rec["sw"], r.rec["shh"], r.rec["fw"], r.rec["ticks"], r.rec["switches"].to_string().chars().take(300).collect::<String>());
     }
     0
